@@ -103,6 +103,9 @@ def deep(tr, emissions: int = 0) -> dict:
         "lineages": {} if ta is None else {k: sorted(v) for k, v in ta.lineage_id_to_nodes.items() if v},
         # keys of the lookups including entries with empty lists: an entry that lists nothing
         # is harmless for C06, but a read-only call that adds one has modified the lookup
+        # exact order of the lookup lists: compared only around read-only operations (C16);
+        # accepted edits and rollbacks legitimately re-order them
+        "lookup_order": None if ta is None else ({k: list(v) for k, v in ta.tracklet_id_to_nodes.items()}, {k: list(v) for k, v in ta.lineage_id_to_nodes.items()}),
         "lookup_keys": None if ta is None else (sorted(ta.tracklet_id_to_nodes, key=repr), sorted(ta.lineage_id_to_nodes, key=repr)),
         "undo": tuple(id(a) for a in tr.action_history.undo_stack),
         "redo": tuple(id(a) for a in tr.action_history.redo_stack),
@@ -112,7 +115,7 @@ def deep(tr, emissions: int = 0) -> dict:
     return d
 
 
-def deep_diff(a: dict, b: dict, ignore=("counters",)) -> list:
+def deep_diff(a: dict, b: dict, ignore=("counters", "lookup_order")) -> list:
     out = []
     for k in a:
         if k in ignore:
